@@ -532,20 +532,27 @@ class HandlerGen:
     """The request handler: an async generator driven by the server.  Trusted model of *any* handler: every resumption either
     yields a timeout (None or a number), finishes (StopAsyncIteration) or fails with any BaseException.
     Ghost: ghost.delivered counts the actions handed to it (asend/athrow), self.closed counts the aclose() calls that actually
-    closed a live generator (GeneratorExit thrown into its body)."""
+    closed a live generator (GeneratorExit thrown into its body), ghost.live_gens counts the generators created and not
+    yet finished."""
 
     def __init__(self):
         self.finished = False
         self.closed = 0
+        ghost.live_gens = ghost.live_gens + 1
+
+    def _finish(self):
+        if not self.finished:
+            self.finished = True
+            ghost.live_gens = ghost.live_gens - 1
 
     def _resume(self):
         require(not self.finished, "no-resumption-of-a-finished-generator")
         k = nondet_int()
         if k == 0:
-            self.finished = True
+            self._finish()
             raise StopAsyncIteration
         if k == 1:
-            self.finished = True
+            self._finish()
             raise_any(BaseException, StopAsyncIteration, GeneratorExit)
         return nondet("opt[xreal]")
 
@@ -564,7 +571,7 @@ class HandlerGen:
         if self.finished:
             return None       # closing a finished (or already closed) async generator is a no-op
         self.closed = self.closed + 1
-        self.finished = True
+        self._finish()
         if nondet_bool():
             raise_any(Exception, StopAsyncIteration)
         return None
@@ -611,3 +618,127 @@ class AsyncExitStack:
 def make_handler(client):
     """client_connected_cb(client): creates the handler's async generator (no code of it runs yet)."""
     return HandlerGen()
+
+
+class Logger:
+    """logging.Logger: emitting a record returns None and raises nothing (assumed: handlers installed by the application
+    do not raise; logging.raiseExceptions only prints)."""
+
+    def log(self, level, msg, *args, **kwargs):
+        return None
+
+    def debug(self, msg, *args, **kwargs):
+        return None
+
+    def info(self, msg, *args, **kwargs):
+        return None
+
+    def warning(self, msg, *args, **kwargs):
+        return None
+
+    def error(self, msg, *args, **kwargs):
+        return None
+
+    def exception(self, msg, *args, **kwargs):
+        return None
+
+
+def get_logger(name=None):
+    return Logger()
+
+
+def same_exception(exc, n):
+    """_utils.remove_traceback_frames_in_place: returns the same exception object (traceback surgery is not modelled)."""
+    return exc
+
+
+async def accept_connect(backend, sock):
+    """AbstractAcceptedSocketFactory.connect (abstract): wraps an accepted socket into a stream; may be cancelled or fail
+    with anything (reset right after accept, TLS handshake failure, ...).  It neither closes the socket on failure nor
+    creates another one (assumed)."""
+    cancel_point()
+    if nondet_bool():
+        raise_any(BaseException)
+    return nondet_obj()
+
+
+async def client_handler(stream):
+    """The per-connection handler given to serve(): only its call matters here."""
+    return None
+
+
+def user_error_handler(exc):
+    """handshake_error_handler given by the application: may log, may raise anything."""
+    if nondet_bool():
+        raise_any(BaseException)
+    return None
+
+
+async def counted_client_handler(stream):
+    """The per-connection handler given to serve(), as seen by the TLS wrapper: called once (ghost.handler_calls); its own
+    failures are the subject of its own contract (the low-level server's client task), so it returns normally here."""
+    ghost.handler_calls = ghost.handler_calls + 1
+    return None
+
+
+class StreamClientModel:
+    """The high-level client object handed to the request handler hooks."""
+
+    def is_closing(self):
+        return nondet_bool()
+
+
+class ClientInitializer:
+    """initializer(lowlevel_client, *args): the async context manager around one client's whole life in the high-level
+    servers (AsyncTCPNetworkServer.__client_initializer / the UDP _ClientContext).  Assumed from their contracts (the
+    suppress-and-log blocks are proved separately): it yields a client or None, and swallows every Exception raised
+    in its block; other BaseExceptions pass through."""
+
+    async def __aenter__(self):
+        if nondet_bool():
+            return None
+        return StreamClientModel()
+
+    async def __aexit__(self, et, ev, tb):
+        if et is not None and issubclass(et, Exception):
+            return True
+        return False
+
+
+def make_initializer(lowlevel_client, *args):
+    return ClientInitializer()
+
+
+class HookCoroutine:
+    """The coroutine returned by a plain `async def on_connection()`: awaiting it runs the hook, which may fail with anything."""
+
+    def __model_await__(self):
+        cancel_point()
+        if nondet_bool():
+            raise_any(BaseException)
+        return None
+
+
+class StreamRequestHandler:
+    """AsyncStreamRequestHandler as the generator-restart wrapper uses it.  ghost.handle_calls / ghost.disc_calls count the
+    handle() generators created and the on_disconnection() calls."""
+
+    def on_connection(self, client):
+        if nondet_bool():
+            return HandlerGen()
+        return HookCoroutine()
+
+    def handle(self, client):
+        ghost.handle_calls = ghost.handle_calls + 1
+        return HandlerGen()
+
+    async def on_disconnection(self, client):
+        ghost.disc_calls = ghost.disc_calls + 1
+        cancel_point()
+        if nondet_bool():
+            raise_any(BaseException)
+        return None
+
+
+def always_true(x):
+    return True
